@@ -3,6 +3,7 @@ import Hgxv.Proofs.C19K
 import Hgxv.Proofs.C19W
 import Hgxv.Proofs.C19B
 import Hgxv.Proofs.C19P
+import Hgxv.Proofs.C19S
 /-! # C19 - filters keep exactly what the criteria say; validation p-values follow the definition
 
 Model: `Hgxv/Model/C19.lean`.  Part A is generic in the container (`KeyOps κ`: `nodesOf`, `shrink`) and in the
@@ -393,6 +394,33 @@ theorem C19_svh_lower_set (sf : Nat → Nat → Rat → Rat) (alpha : Rat) (occ 
   have hf := (C19_svh_flags sf alpha occ n).2.2
   exact (hf r1 h1).mpr (lt_of_le_of_lt hle ((hf r2 h2).mp hv))
 
+/-- step-up, not step-down: with `bonf ≥ 0` (i.e. `alpha ≥ 0`), if the `(j+1)`-th smallest p-value is below its line
+`(j+1)·bonf`, then the threshold is at least that line and ALL of the `j+1` smallest p-values are validated - also those
+that are not below their own line. (`C19_svh_threshold` says which line the threshold is; this is the consequence that
+distinguishes the rule from a scan that stops at the first failure.) -/
+theorem C19_svh_step_up (ps : List Rat) (bonf : Rat) (hb : 0 ≤ bonf) :
+    let s := ps.mergeSort (fun a b => a ≤ b)
+    ∀ j (h : j < s.length), s[j] < ((j + 1 : Nat) : Rat) * bonf →
+      ((j + 1 : Nat) : Rat) * bonf ≤ threshold ps bonf ∧
+      ∀ i (hi : i ≤ j), validated ps bonf (s[i]'(by omega)) = true := by
+  intro s j hj hhit
+  have hsorted : s.Pairwise (· ≤ ·) := by
+    have := List.pairwise_mergeSort (le := fun (a b : Rat) => decide (a ≤ b))
+      (fun a b c h1 h2 => by simp only [decide_eq_true_eq] at *; exact Rat.le_trans h1 h2)
+      (fun a b => by simp only [Bool.or_eq_true, decide_eq_true_eq]; exact Rat.le_total) ps
+    simpa using this
+  have hthr : ((j + 1 : Nat) : Rat) * bonf ≤ threshold ps bonf := by
+    have := stepUp_ge_hit bonf hb s 1 0 j hj (by simpa [Nat.add_comm] using hhit)
+    show _ ≤ stepUp bonf s 1 0
+    simpa [Nat.add_comm] using this
+  refine ⟨hthr, fun i hi => ?_⟩
+  have hle : s[i]'(by omega) ≤ s[j] := by
+    rcases Nat.lt_or_eq_of_le hi with hlt | heq
+    · exact (List.pairwise_iff_getElem.mp hsorted) i j (by omega) hj hlt
+    · subst heq; exact le_refl _
+  simp only [validated, decide_eq_true_eq]
+  exact lt_of_le_of_lt hle (lt_of_lt_of_le hhit hthr)
+
 /-! #### non-vacuity of part B: hyperedges (1,2):3, (2,3):1, (1,2,3):2, (7):5 -/
 
 def C19.exampleEdges : List (List Nat × Nat) := [([1, 2], 3), ([2, 3], 1), ([1, 2, 3], 2), ([7], 5)]
@@ -428,3 +456,10 @@ example : validated [1/1000, 1/2, 1/300] (1/100) (1/300) = true ∧
 /-- no hit: threshold 0, nothing validated -/
 example : threshold [1/2, 1/3] (1/100) = 0 := by
   norm_num [threshold, stepUp, List.mergeSort, List.merge]
+/-- positions 1 and 2 are not below their lines (3/100 ≥ 1/80, 3/100 ≥ 2/80) but position 3 is (3/100 < 3/80):
+the threshold is 3/80 and all three tied rows are validated (a step-down scan would stop at position 1) -/
+example : threshold [3/100, 3/100, 3/100] (1/80) = 3/80 ∧ validated [3/100, 3/100, 3/100] (1/80) (3/100) = true := by
+  norm_num [validated, threshold, stepUp, List.mergeSort, List.merge]
+/-- p_(1) = 1/50 ≥ 1/60 but p_(2) = 1/40 < 2/60: both validated -/
+example : threshold [1/40, 1/50] (1/60) = 1/30 ∧ validated [1/40, 1/50] (1/60) (1/50) = true := by
+  norm_num [validated, threshold, stepUp, List.mergeSort, List.merge]
